@@ -91,6 +91,9 @@ type out struct {
 	RunPanic  string              `json:"run_panic"`
 	StdSweep  *stdOut             `json:"std_sweep,omitempty"`
 	StdTable  map[string]string   `json:"std_table"` // the whole documented table (stdinfo.PathByName, private copy)
+	Scripts   []itabScript        `json:"scripts"`   // scripted histories of the import table itself
+	ItabNames []string            `json:"itab_names"`
+	ItabPaths []string            `json:"itab_paths"`
 	Error     string              `json:"error,omitempty"`
 }
 
@@ -101,6 +104,10 @@ var fakeDirs = map[string]string{
 	"example.com/a/foo":   "fake/c20afoo/foo.go",
 	"example.com/b/foo":   "fake/c20bfoo/foo.go",
 	"example.com/c20/lib": "fake/c20lib/lib.go",
+	// third packages named io / foo / template: groups that bind one base name two and three times
+	"example.com/c20/lib/io":       "fake/c20lib/io/io.go",
+	"example.com/c20/lib/foo":      "fake/c20lib/foo/foo.go",
+	"example.com/c20/lib/template": "fake/c20lib/template/template.go",
 }
 
 const vendoredLib = "example.com/c20app/vendor/example.com/c20/lib"
@@ -139,6 +146,9 @@ import (
 	msuf "mirror.org/example.com/c20/lib"
 	vpre "example.com/c20app/vendor/example.com/c20/lib/v2"
 	xven "example.com/c20app/xvendor/example.com/c20/lib"
+	lfoo "example.com/c20/lib/foo"
+	lio "example.com/c20/lib/io"
+	ltemplate "example.com/c20/lib/template"
 
 	gscanner "go/scanner"
 	mrand "math/rand"
@@ -157,6 +167,9 @@ var probeTypes = []string{
 	"vsuf.Impl", "vio.OnlyFake",
 	// the base names that several std packages share: rand, pprof, scanner (template is above)
 	"*mrand.Rand", "mrand.Rand", "*rpprof.Profile", "gscanner.Scanner", "tscanner.Scanner", "*tscanner.Scanner", "mrand.Source",
+	// the third packages named io / foo / template
+	"lio.Reader", "lio.Impl", "lio.Writer", "lfoo.T", "*lfoo.T", "lfoo.Impl", "lfoo.Iface", "ltemplate.Template", "*ltemplate.Template", "*htemplate.Template",
+	"*gscanner.Scanner",
 }
 
 var nProbes = len(probeTypes)
@@ -174,7 +187,114 @@ var targetSrc = func() string {
 
 // ---- menus
 
-var importMenu = []string{"example.com/io", "example.com/a/foo", "example.com/b/foo", "html/template", "example.com/c20/lib", "text/template", "math/rand", "text/scanner"}
+var importMenu = []string{"example.com/io", "example.com/a/foo", "example.com/b/foo", "html/template", "example.com/c20/lib", "text/template", "math/rand", "text/scanner",
+	"example.com/c20/lib/io", "example.com/c20/lib/foo", "example.com/c20/lib/template", "go/scanner", "io"}
+
+// families of importable packages with one base name: a group may bind the name several times (the last Import() wins inside
+// the group, and all of its bindings end with the group)
+type family struct {
+	name  string
+	paths []string
+	typ   string            // a type every member declares
+	iface string            // an interface every member declares ("" = none)
+	meth  map[string]string // member path -> a method of its iface
+}
+
+var families = []family{
+	{"io", []string{"example.com/io", "io", "example.com/c20/lib/io"}, "Reader", "Reader",
+		map[string]string{"example.com/io": "ReadFake", "io": "Read", "example.com/c20/lib/io": "ReadThird"}},
+	{"foo", []string{"example.com/a/foo", "example.com/b/foo", "example.com/c20/lib/foo"}, "T", "Iface",
+		map[string]string{"example.com/a/foo": "MA", "example.com/b/foo": "MB", "example.com/c20/lib/foo": "MC"}},
+	{"template", []string{"html/template", "text/template", "example.com/c20/lib/template"}, "Template", "", nil},
+	{"scanner", []string{"go/scanner", "text/scanner"}, "Scanner", "", nil},
+}
+
+// importSeqs: every sequence of 2 and of 3 Import() calls over the family's members that binds the name at least twice to
+// different packages: all orders of all subsets, and (over the first two members) the sequences that repeat a package
+func importSeqs(f family) [][]string {
+	var out [][]string
+	n := len(f.paths)
+	for a := 0; a < n; a++ {
+		for b := 0; b < n; b++ {
+			if a != b {
+				out = append(out, []string{f.paths[a], f.paths[b]})
+			}
+			for c := 0; c < n; c++ {
+				distinct := a != b && b != c && a != c
+				two := a < 2 && b < 2 && c < 2 && !(a == b && b == c)
+				if distinct || two {
+					out = append(out, []string{f.paths[a], f.paths[b], f.paths[c]})
+				}
+			}
+		}
+	}
+	return out
+}
+
+// familyReqs: the requests a group makes about the family's name when the name means package `bound` there ("" = unbound)
+func familyReqs(f family, bound string, k int) []reqT {
+	op := []string{"is", "sink", "is", "uis"}[k%4]
+	wrap := []string{"", "*", "[]", "*"}[k%4]
+	if op == "uis" {
+		op, wrap = "is", "" // the underlying type of a named type is never a named type of the family
+	}
+	reqs := []reqT{{Op: op, Kind: "typepat", Wrap: wrap, Pkg: f.name, Name: f.typ}}
+	if f.iface != "" {
+		reqs = append(reqs, reqT{Op: "impl", Kind: "iqual", Pkg: f.name, Name: f.iface})
+		if m := f.meth[bound]; m != "" {
+			reqs = append(reqs, reqT{Op: "hasm", Kind: "funcref", Pkg: f.name, Name: f.iface, Meth: m})
+		}
+	}
+	return reqs
+}
+
+// shadowScenarios: import-less group, group binding the name 2..3 times, import-less group(s) again -- and for names without a
+// standard-library default the import-less group comes last (the file must not load)
+func shadowScenarios() []scenario {
+	var out []scenario
+	k := 0
+	for _, f := range families {
+		def, hasDef := stdDefaults[f.name]
+		for _, seq := range importSeqs(f) {
+			k++
+			last := seq[len(seq)-1]
+			shadow := groupT{Imports: seq, Reqs: familyReqs(f, last, k)}
+			plain := func(j int) groupT { return groupT{Reqs: familyReqs(f, def, k+j)} }
+			var sc scenario
+			switch {
+			case hasDef && k%3 == 0:
+				sc.Groups = []groupT{shadow, plain(1), plain(2)}
+			case hasDef && k%3 == 1:
+				sc.Groups = []groupT{plain(1), shadow, plain(2)}
+			case hasDef:
+				// a second shadowing group (the sequence reversed) and a skipped one in between
+				rev := append([]string{}, seq...)
+				for i, j := 0, len(rev)-1; i < j; i, j = i+1, j-1 {
+					rev[i], rev[j] = rev[j], rev[i]
+				}
+				sc.Groups = []groupT{shadow, {Skip: true, Imports: rev, Reqs: familyReqs(f, rev[len(rev)-1], k)}, plain(1),
+					{Imports: rev, Reqs: familyReqs(f, rev[len(rev)-1], k+1)}, plain(2)}
+			case k%3 == 0:
+				// no default: a later group that binds another name only must not see the family's name any more
+				sc.Groups = []groupT{shadow, {Imports: []string{"example.com/c20/lib"}, Reqs: []reqT{{Op: "is", Kind: "typepat", Pkg: "lib", Name: "T"},
+					{Op: "is", Kind: "typepat", Pkg: f.name, Name: f.typ}}}}
+			case k%3 == 1:
+				other := f.paths[(k/3)%len(f.paths)]
+				sc.Groups = []groupT{shadow, {Imports: []string{other}, Reqs: familyReqs(f, other, k+1)}, {Reqs: familyReqs(f, "", k+2)[:1]}}
+			default:
+				// a file that loads: every group binds the name itself (twice, once, twice in the other order)
+				other := f.paths[(k/3)%len(f.paths)]
+				rev := append([]string{}, seq...)
+				for i, j := 0, len(rev)-1; i < j; i, j = i+1, j-1 {
+					rev[i], rev[j] = rev[j], rev[i]
+				}
+				sc.Groups = []groupT{shadow, {Imports: []string{other}, Reqs: familyReqs(f, other, k+1)}, {Imports: rev, Reqs: familyReqs(f, rev[len(rev)-1], k+2)}}
+			}
+			out = append(out, sc)
+		}
+	}
+	return out
+}
 
 var typepatMenu = [][2]string{
 	{"io", "Reader"}, {"io", "Writer"}, {"io", "OnlyFake"}, {"foo", "T"}, {"foo", "OnlyA"}, {"foo", "Impl"}, {"template", "Template"},
@@ -499,6 +619,7 @@ func (o *oracle) satisfied(op, wrap, target string) []string {
 func main() {
 	seed := flag.Int64("seed", 1, "PRNG seed")
 	nscen := flag.Int("n", 60, "number of random scenarios")
+	nscripts := flag.Int("scripts", 300, "number of random import-table scripts")
 	writeBundle := flag.Bool("writebundle", false, "write harness/fake/c20bundle/rules.go (cwd = harness/) and exit")
 	flag.Parse()
 	o := out{Seed: *seed, Table: map[string][]string{}, Std: map[string]string{}}
@@ -622,6 +743,8 @@ func main() {
 		{"GetType", "math/rand.Rand", "ResType math/rand Rand"}, {"GetInterface", "math/rand.Source", "ResIface math/rand Source"},
 		{"GetType", "example.com/c20/lib.T", "ResType example.com/c20/lib T"}, {"GetInterface", "io.StringWriter", "ResIface io StringWriter"},
 	}
+	// groups that bind one base name two and three times (every order), before / after / between import-less groups
+	scs = append(scs, shadowScenarios()...)
 	for i := 0; i < *nscen; i++ {
 		var sc scenario
 		withCustom := r.Intn(6) == 0
@@ -636,6 +759,12 @@ func main() {
 			for r.Intn(5) < 2 && len(gr.Imports) < 3 {
 				gr.Imports = append(gr.Imports, importMenu[r.Intn(len(importMenu))])
 			}
+			if r.Intn(5) == 0 { // bind one base name several times
+				f := families[r.Intn(len(families))]
+				for c, m := 0, 2+r.Intn(2); c < m; c++ {
+					gr.Imports = append(gr.Imports, f.paths[r.Intn(len(f.paths))])
+				}
+			}
 			for j, m := 0, 1+r.Intn(3); j < m; j++ {
 				q := genReq(r)
 				gr.Reqs = append(gr.Reqs, q)
@@ -646,7 +775,7 @@ func main() {
 						bound = bound || path.Base(imp) == q.Pkg
 					}
 					if !bound {
-						cands := map[string][]string{"foo": {"example.com/a/foo", "example.com/b/foo"}, "lib": {"example.com/c20/lib"}}[q.Pkg]
+						cands := map[string][]string{"foo": {"example.com/a/foo", "example.com/b/foo", "example.com/c20/lib/foo"}, "lib": {"example.com/c20/lib"}}[q.Pkg]
 						gr.Imports = append(gr.Imports, cands[r.Intn(len(cands))])
 					}
 				}
@@ -970,5 +1099,6 @@ func main() {
 	}
 	o.StdSweep = so
 	o.StdTable = stdDefaults
+	o.Scripts, o.ItabNames, o.ItabPaths = itabScripts(*seed, *nscripts), itabNames, itabPaths
 	enc.Encode(o)
 }
